@@ -67,7 +67,7 @@ def run(ctx: Context, col) -> None:
             else:
                 why = f["details"].get("why", "recurrence step differs from the documented block Gauss-Seidel update")
         col.add("R6.1", f"SemiAsyncValueIteration.scan_fn[{tag}]", file, kfn.lineno, ok1, why, text=f"recurrence [{tag}]")
-        ok2 = bool(f.get("y_ok")) and sw.new is not None and sw.new[0] == "lam" and not any(u["interference"] for u in sw.I.unbatch_log)
+        ok2 = bool(f.get("y_ok")) and sw.new is not None and perm_rewrite(sw.new)[0] == "lam" and not any(u["interference"] for u in sw.I.unbatch_log)
         col.add("R6.2", f"SemiAsyncValueIteration.scan_fn[{tag}]", file, kfn.lineno, ok2,
                 "scan outputs = unmasked Bellman(carried values) per slot, un-batched with no batch index left" if ok2 else
                 "scan outputs are not the new batch values / un-batching leaves a batch index", text=f"scan outputs [{tag}]")
